@@ -613,3 +613,88 @@ def tailcall_programs():
 
 
 TAILCALL_ARGS = [['48', '18', '2'], ['7', '3', '5'], ['0', '9', '1']]
+
+
+# ------------------------------------------------ globals side by side, bit-vectors
+def global_neighbour_programs():
+    """mutable globals of every scalar type declared next to each other, each assigned from every kind of expression
+    (arithmetic, comparison, cast, call, element, unary); after every assignment ALL of them are printed: an assignment
+    changes its own variable and nothing else, at every word size"""
+    names = [('ga', BYTE, Lit(BYTE, 1, keep=True)), ('gf', BOOL, Lit(BOOL, False, keep=True)), ('gi', INT, _i(300)), ('gb', BYTE, Lit(BYTE, 2, keep=True)),
+             ('gs', STRING, Lit(STRING, b'baba', keep=True)), ('gt', BOOL, Lit(BOOL, True, keep=True)), ('gc', BYTE, Lit(BYTE, 3, keep=True)), ('gj', INT, _i(-7))]
+    V_ = {n: Var(n, t) for n, t, _ in names}
+    idf = Func('idf', [('x', INT, False)], INT, [Ret(Bin('+', Var('x', INT), _i(1)))])
+
+    def dump():
+        out = []
+        for n, t, _ in names:
+            out += [W(Cast(V_[n], INT) if t == BYTE else V_[n]), _mark(',')]
+        return out + [_mark('\n')]
+    q = Var('q', Arr(INT, False))
+    sources = {
+        BYTE: [Cast(Bin('+', arg(0), _i(1)), BYTE), Cast(Call(idf, [arg(0)]), BYTE), Cast(Index(q, Lit(INT, 1)), BYTE), Index(S('xyz'), Bin('%', arg(0), _i(3))),
+               Cast(Bin('>', arg(0), _i(2)), BYTE), Cast(Un('-', arg(0)), BYTE)],
+        BOOL: [Bin('>', arg(0), _i(2)), Bin('==', Bin('%', arg(0), _i(2)), _i(1)), Cast(arg(0), BOOL), Un('not', Cast(arg(1), BOOL)),
+               Bin('and', Bin('>', arg(0), _i(0)), Bin('<', arg(1), _i(9))), Bin('<', Call(idf, [arg(0)]), _i(3))],
+        INT: [Bin('*', arg(0), _i(100)), Call(idf, [arg(1)]), Un('-', arg(0)), Cast(Cast(arg(0), BYTE), INT), Len(S('hello'))],
+        STRING: [S('keke'), Index(Var('ws', Arr(STRING, True)), Bin('%', arg(0), _i(2)))],
+    }
+    for order in (0, 1):
+        seq = names if order == 0 else list(reversed(names))
+        body = [Decl('q', Arr(INT, False), ArrLit([arg(0), arg(1), _i(9)], INT, False)), Decl('ws', Arr(STRING, True), ArrLit([S('me'), S('flag')], STRING, True))] + dump()
+        for n, t, _ in seq:
+            for e in sources[t]:
+                body += [Assign(V_[n], e)] + dump()
+            if t in (INT, BYTE):
+                body += [OpAssign(V_[n], '+', Lit(t, 1))] + dump()
+        main = Func('@is_you', [('v', Arr(INT, True), False)], EMPTY, body)
+        yield f'global-neighbours/order{order}', Program([Decl(n, t, init) for n, t, init in names], [main, idf])
+
+
+NEIGHBOUR_ARGS = [['3', '4'], ['0', '300'], ['-1', '9']]
+
+
+def bitvector_programs():
+    """bool arrays of 20 elements (stack literal with run-time entries, dynamic, global, parameter): every element written
+    and read through a literal index, a local, a parameter, a computed expression and a global; groups of eight that are
+    all false; a strict 0/1 wherever an element is used as a value"""
+    n = 20
+    for storage in ('literal', 'dynamic', 'global', 'const_literal'):
+        t = Arr(BOOL, storage == 'const_literal')
+        a = Var('a', t)
+        gl, pre = [Decl('gk', INT, _i(0))], []
+        elems = [Bin('==', Bin('%', Bin('+', arg(0), _i(k)), _i(3)), _i(0)) if k in (0, 9, 17) else Lit(BOOL, k in (1, 2, 10, 19)) for k in range(n)]
+        if storage in ('literal', 'const_literal'):
+            pre.append(Decl('a', t, ArrLit(elems, BOOL, storage == 'const_literal')))
+        elif storage == 'dynamic':
+            pre.append(VLA('a', BOOL, Bin('+', arg(1), _i(n))))
+            pre += [Assign(Index(a, Lit(INT, k)), elems[k]) for k in range(n)]
+        else:
+            lits = [Lit(BOOL, k in (1, 2, 10, 19), keep=True) for k in range(n)]
+            gl.append(Decl('a', t, ArrLit(lits, BOOL, False)))
+        i = Var('i', INT)
+        show = lambda: [For(Decl('i', INT, _i(0)), Bin('<', i, Len(a)), OpAssign(i, '+', _i(1)), [W(Cast(Index(a, i), INT))]), _mark(' ')]   # noqa: E731
+        body = pre + show()
+        # reads through every kind of index, used as values (strict 0/1)
+        p = Var('p', INT)
+        for k in (0, 3, 7, 8, 9, 15, 16, 19):
+            body += [W(Cast(Index(a, Lit(INT, k)), INT)), W(Bin('==', Index(a, Lit(INT, k)), Lit(BOOL, True))), W(Un('not', Index(a, Lit(INT, k)))), _mark(',')]
+        body.append(_mark(' '))
+        if storage != 'const_literal':
+            reader = Func('flip', [('b', t, False), ('p', INT, False)], EMPTY, [Assign(Index(Var('b', t), p), Un('not', Index(Var('b', t), p))),
+                                                                                 Assign(Index(Var('b', t), Bin('%', Bin('+', p, _i(8)), _i(n))), Lit(BOOL, True))])
+            body += [Decl('loc', INT, Bin('+', arg(1), _i(9))), Assign(Index(a, Var('loc', INT)), Lit(BOOL, True)), Assign(Index(a, Lit(INT, 18)), Index(a, Lit(INT, 1))),
+                     Assign(Index(a, Bin('+', Bin('*', arg(1), _i(2)), _i(12))), Bin('>', arg(0), _i(0))), Assign(Var('gk', INT), _i(13)),
+                     Assign(Index(a, Var('gk', INT)), Lit(BOOL, True)), ExprStmt(Call(reader, [a, _i(11)])), ExprStmt(Call(reader, [a, Bin('+', arg(1), _i(3))]))] + show()
+            funcs = [reader]
+        else:
+            funcs = []
+        cnt = Func('count', [('b', Arr(BOOL, True), False)], INT, [Decl('c', INT, _i(0)),
+                                                                    For(Decl('i', INT, _i(0)), Bin('<', i, Len(Var('b', Arr(BOOL, True)))), OpAssign(i, '+', _i(1)),
+                                                                        [If(Index(Var('b', Arr(BOOL, True)), i), [OpAssign(Var('c', INT), '+', _i(1))])]), Ret(Var('c', INT))])
+        body += [W(Call(cnt, [a])), _mark('\n')]
+        main = Func('@is_you', [('v', Arr(INT, True), False)], EMPTY, body)
+        yield f'bitvector/{storage}', Program(gl, [main] + funcs + [cnt])
+
+
+BITVECTOR_ARGS = [['0', '0'], ['1', '0'], ['2', '0']]
